@@ -468,6 +468,17 @@ class SetupRefused(Exception):
     """The server refused to register a generated object (not this property's business)."""
 
 
+def open_policies():
+    """Built-in policies plus 'open': every operation on every object type is allowed to everybody
+    (so that a request by somebody who is not the owner can succeed - and must then still change
+    nothing but the addressed attribute instance; the owner stays the owner)."""
+    from kmip.core import enums
+    p = H.builtin_policies()
+    p["open"] = {"preset": {H.OT[t]: {o: enums.Policy.ALLOW_ALL for o in enums.Operation}
+                            for t in H.OBJECT_TYPES}}
+    return p
+
+
 def register_objects(srv, spec_objs):
     objs = []
     for i, o in enumerate(spec_objs):
@@ -480,6 +491,8 @@ def register_objects(srv, spec_objs):
             extra.append(["Application Specific Information", ASI_POOL[j % len(ASI_POOL)], k])
         if o.get("sensitive") is not None:
             extra.append(["Sensitive", bool(o["sensitive"])])
+        if o.get("pol"):
+            extra.append(["Operation Policy Name", o["pol"]])
         otype = o.get("otype", "SymmetricKey")
         owner = o.get("owner", "alice")
         c = H.Client(srv, owner, None, OBS_V)
@@ -493,7 +506,7 @@ def register_objects(srv, spec_objs):
 def run_history(spec):
     """Returns (buckets, nontrivial, classes, counters)."""
     H.CLOCK.now = 1_650_000_000
-    srv = H.Server()
+    srv = H.Server(policies=open_policies())
     buckets = []
     classes = set()
     counters = {}
@@ -879,7 +892,8 @@ def gen_history(draw, max_steps=25):
             "asi": draw(st.lists(st.integers(0, 3), min_size=draw(sizes), max_size=3, unique=True)),
             "mask": draw(st.sampled_from(MASKS)),
             "sensitive": draw(st.sampled_from([None, False, False, True])),
-            "owner": draw(st.sampled_from(["alice", "alice", "alice", "bob"]))})
+            "owner": draw(st.sampled_from(["alice", "alice", "alice", "bob"])),
+            "pol": draw(st.sampled_from([None, None, "open"]))})
     steps = []
     for _ in range(draw(st.integers(3, max_steps))):
         k = draw(st.sampled_from(_STEP_KINDS))
@@ -900,7 +914,7 @@ def gen_history(draw, max_steps=25):
             v = draw(st.sampled_from(_VERSIONS))
             n = draw(st.sampled_from([1] * 8 + [2, 3]))
             step = {"k": "attr", "v": list(v),
-                    "who": draw(st.sampled_from(["owner"] * 9 + ["mallory"])),
+                    "who": draw(st.sampled_from(["owner"] * 7 + ["mallory"] * 3)),
                     "items": [_item(draw, nobj, v) for _ in range(n)]}
             if n > 1:
                 step["cont"] = draw(st.sampled_from(["CONTINUE", "CONTINUE", "STOP", None]))
